@@ -43,7 +43,7 @@ T0 = scen.T0
 
 
 def gen_cases(tier, seed):
-    n = 40 if tier == "quick" else 800
+    n = 200 if tier == "quick" else 2000
     for i in range(n):
         for kind in SIGNAL + ["market_vs_greedy", "schedule_individual"]:
             yield {"seed": seed, "i": i, "kind": kind, "pid": PID}
@@ -93,7 +93,12 @@ def build_signal(case):
     ev = {"fixed_load": {}, "local_generation": {}, "grid_operator_signals": [], "vehicle_events": []}
     meta = {"vehicles": {}, "interval": interval, "n_steps": n_steps}
     total = 0.0
-    for k in range(rng.randint(1, 3)):
+    n_veh = rng.randint(1, 3)
+    # single-vehicle scenarios may get a fixed load that makes the connector headroom bind in some steps
+    # (share of the station power that is left: 1 = not binding)
+    binding = n_veh == 1 and rng.random() < 0.6
+    share = [rng.choice([1, 1, 1, 0.2, 0.4, 0.7]) if binding else 1 for _ in range(n_steps + 8)]
+    for k in range(n_veh):
         cname, pts = rng.choice(scen.CURVES[:4])
         tn = "vt%d" % k
         vt = {"name": tn, "capacity": rng.choice([20, 40, 50]), "mileage": 20, "charging_curve": copy.deepcopy(pts),
@@ -109,18 +114,21 @@ def build_signal(case):
         want_enc = math.ceil(1.3 * need) + 1
         a = rng.choice([0, 0, 1, 2])
         # extend the standing period until it contains enough encouraged steps
+        def capacity(enc_, a_, d_):
+            # encouraged charging capacity in full-power steps (headroom share where the connector binds)
+            return sum(share[t] for t in range(a_, d_) if enc_[t])
         if steps_price:
             d = min(n_steps - 1, a + max(want_enc + rng.randint(2, 8), 4))
             cheapest = min(steps_price[a:d])
             enc = [steps_price[t] == cheapest for t in range(len(steps_price))]
-            if sum(enc[a:d]) < want_enc:
+            if capacity(enc, a, d) < want_enc:
                 continue
         else:
             enc = pattern
             d = a
-            while d < n_steps - 1 and (sum(enc[a:d]) < want_enc or d - a < 3):
+            while d < n_steps - 1 and (capacity(enc, a, d) < want_enc or d - a < 3):
                 d += 1
-            if sum(enc[a:d]) < want_enc:
+            if capacity(enc, a, d) < want_enc:
                 continue
             d = min(n_steps - 1, d + rng.randint(0, 3))
         comp["vehicle_types"][tn] = vt
@@ -147,7 +155,18 @@ def build_signal(case):
                                  "capacity": vt["capacity"]}
     rating = total * rng.choice([1.0, 1.5, 3.0]) + 5.0
     gc = {"max_power": rating, "voltage_level": "MV", "cost": {"type": "fixed", "value": 0.3}}
+    if binding and total > 0:
+        # headroom_t = rating - fixed_t = share_t * station power (+ a little) where the connector binds
+        ev["fixed_load"]["building"] = {
+            "start_time": scen.iso(start), "step_duration_s": interval * 60, "grid_connector_id": "GC1",
+            "values": [round(rating - (share[t] * total + 0.01), 6) if share[t] < 1 else round(rating - total - 5.0, 6)
+                       for t in range(n_steps)]}
+        meta["binding_steps"] = [t for t in range(n_steps) if share[t] < 1]
     options = {}
+
+    def off_grid():
+        # a signal that starts inside step t-1 takes effect at step t (first step at or after its start)
+        return datetime.timedelta(minutes=rng.choice([0, 0, 1, interval // 2, interval - 1]))
     if strat == "peak_load_window":
         options["time_windows"] = "@TIME_WINDOWS"
         meta["time_windows"] = time_windows
@@ -157,7 +176,8 @@ def build_signal(case):
         for t in range(1, n_steps):
             if pattern[t] != pattern[t - 1]:
                 ev["grid_operator_signals"].append({
-                    "signal_time": scen.iso(start - datetime.timedelta(hours=1)), "start_time": scen.iso(start + t * dt),
+                    "signal_time": scen.iso(start - datetime.timedelta(hours=1)),
+                    "start_time": scen.iso(start + t * dt - off_grid()),
                     "grid_connector_id": "GC1", "window": bool(pattern[t])})
     else:
         gc["cost"] = {"type": "fixed", "value": steps_price[0]}
@@ -165,12 +185,32 @@ def build_signal(case):
         for t in range(1, n_steps):
             if steps_price[t] != steps_price[t - 1]:
                 ev["grid_operator_signals"].append({
-                    "signal_time": scen.iso(start - datetime.timedelta(hours=1)), "start_time": scen.iso(start + t * dt),
+                    "signal_time": scen.iso(start - datetime.timedelta(hours=1)),
+                    "start_time": scen.iso(start + t * dt - off_grid()),
                     "grid_connector_id": "GC1", "cost": {"type": "fixed", "value": steps_price[t]}})
     comp["grid_connectors"]["GC1"] = gc
     scn = {"scenario": {"start_time": scen.iso(start), "interval": interval, "n_intervals": n_steps},
            "components": comp, "events": ev}
     return {"scenario": scn, "strategy": strat, "options": options, "meta": meta, "pid": PID, "kind": kind}
+
+
+def replan_suffices(full, m):
+    """independent statement of the documented mechanism 'charge evenly over the encouraged steps': in every
+    encouraged step of the standing time offer remaining/(remaining encouraged steps), limited by station and
+    connector headroom; True if that delivers 1.15 x the needed energy"""
+    comp = full["scenario"]["components"]
+    cs_power = float(comp["charging_stations"][m["cs"]]["max_power"])
+    rating = float(comp["grid_connectors"]["GC1"]["max_power"])
+    fixed = full["scenario"]["events"]["fixed_load"].get("building", {}).get("values")
+    dt_h = full["meta"]["interval"] / 60.0
+    steps = [t for t in range(m["a"], m["d"]) if m["enc"][t]]
+    rem = 1.15 * m["need"] * cs_power * dt_h          # energy of `need` full-power steps, with margin
+    for i, t in enumerate(steps):
+        head = rating - (fixed[t] if fixed and t < len(fixed) else 0.0)
+        cap = max(0.0, min(cs_power, head))
+        p = min(rem / ((len(steps) - i) * dt_h), cap)
+        rem -= p * dt_h
+    return rem <= 1e-9
 
 
 def station_power(r, t, cs):
@@ -200,7 +240,12 @@ def eval_signal(full):
         for t in disc:
             p = station_power(r, t, m["cs"])
             if p > EPS:
-                viol.append(("follows_signal", "C11:charged_in_discouraged_step:%s" % strat,
+                key = "C11:charged_in_discouraged_step:%s" % strat
+                if not replan_suffices(full, m):
+                    # plain capacity of the encouraged steps suffices (premise of the property), but evenly
+                    # re-planned charging over them does not, because the connector binds late in the standing time
+                    key += ":headroom_binds_too_late_for_even_replanning"
+                viol.append(("follows_signal", key,
                              "%s charged %.4f kW at step %d (discouraged); encouraged steps in standing time %d, "
                              "needed %d" % (vid, p, t, sum(m["enc"][m["a"]:m["d"]]), m["need"])))
                 break
@@ -211,7 +256,10 @@ def eval_signal(full):
                 soc_dep = pe["vehicles"][vid]["soc"]
                 break
         if soc_dep is not None and soc_dep < m["desired"] - 1e-4:
-            viol.append(("still_reached", "C11:desired_soc_missed_with_sufficient_encouraged_steps:%s" % strat,
+            key = "C11:desired_soc_missed_with_sufficient_encouraged_steps:%s" % strat
+            if not replan_suffices(full, m):
+                key += ":headroom_binds_too_late_for_even_replanning"
+            viol.append(("still_reached", key,
                          "%s left with %.6f < %.4f" % (vid, soc_dep, m["desired"])))
     if kind == "market_vs_greedy":
         g = dict(full, strategy="greedy")
